@@ -151,6 +151,12 @@ class SpecDB:
                 if st.env.get("__last_result") is None:
                     raise Unbound("last_result: no contract call happened yet")
                 env[a] = freeze(I, st.env["__last_result"], st.heap)
+            elif a.endswith("__head"):
+                snap = st.env.get("__head_env")
+                base = a[:-6]
+                if not isinstance(snap, tuple) or base not in snap[0]:
+                    raise Unbound(f"{a}: no loop-head snapshot of `{base}`")
+                env[a] = freeze(I, snap[0][base], snap[1])
             elif a.endswith("__pre"):
                 base = a[:-5]
                 if st.env0 is None or base not in st.env0:
@@ -701,6 +707,45 @@ class Pure:
                 for ax in extreme_axioms(A, v.length, name == "min_of"):
                     self.defs.append(ax)
                 return Num((MINF if name == "min_of" else MAXF)(A, v.length), "real")
+            if name == "nearest":
+                # SOME index satisfying the definitional spec of the search strategy, if one exists (Hilbert choice; the
+                # spec determines the index uniquely).  strategy: concrete or symbolic string.
+                xs, v, strat = args
+                A = L.array_term(self.I, self.st, xs)
+                n = xs.length
+                vt = to_real(v)
+                out = None
+                for code, sname in ((0, "closest"), (1, "lower"), (2, "higher")):
+                    K = NEAR(A, n, vt, z3.IntVal(code))
+                    k = z3.Int(fresh_name("k"))
+                    vv = z3.Real(fresh_name("v"))
+
+                    def spec(r, val, code=code):
+                        i = z3.Int(fresh_name("i"))
+                        inb = z3.And(r >= 0, r < n)
+                        if code == 1:
+                            return z3.If(val < A[0], r == 0, z3.And(inb, A[r] <= val, z3.ForAll([i], z3.Implies(z3.And(i >= 0, i < n, A[i] <= val), i <= r))))
+                        if code == 2:
+                            return z3.If(val > A[n - 1], r == n - 1, z3.And(inb, A[r] >= val, z3.ForAll([i], z3.Implies(z3.And(i >= 0, i < n, A[i] >= val), i >= r))))
+                        ab = lambda t: z3.If(t >= 0, t, -t)
+                        return z3.And(inb, z3.ForAll([i], z3.Implies(z3.And(i >= 0, i < n), z3.And(ab(A[r] - val) <= ab(A[i] - val),
+                                                                                                 z3.Implies(ab(A[i] - val) == ab(A[r] - val), r <= i)))))
+                    # definitional axiom, for every value v (trigger: the NEAR term): if some index satisfies the spec, NEAR does
+                    key = ("near", A.get_id(), n.get_id(), code)
+                    cache = self.st.ghost.setdefault("__neardefs", {})
+                    if key not in cache:
+                        Kv = NEAR(A, n, vv, z3.IntVal(code))
+                        cache[key] = z3.ForAll([vv], z3.Implies(z3.Exists([k], spec(k, vv)), spec(Kv, vv)), patterns=[Kv])
+                        self.defs.append(cache[key])
+                    if isinstance(strat, StrV) and strat.concrete:
+                        if strat.s == sname:
+                            out = K
+                    else:
+                        out = K if out is None else out
+                        out = z3.If(strat.term() == z3.StringVal(sname), K, out) if code else K
+                if out is None:
+                    raise EngineError("nearest: unknown strategy")
+                return Num(out, "int")
             if name == "index_of":
                 # Hilbert-choice style definition: SOME index holding v, if there is one (conservative extension)
                 xs, v = args
